@@ -35,6 +35,9 @@ def nonfinal_terms() -> List[Tuple[Any, Any]]:
     for a in ARGS:
         for k in KWARGS:
             out.append((('cont', a, k), None))
+    # keyword names that are also parameter names somewhere on the way from Continue to the next state
+    for name in ('process', 'run_fn', 'state_label', 'continue_fn'):
+        out.append((('cont', (), ((name, 1),)), None))
     for r in RESUMES:
         for msg, data in WAITS:
             out.append((('wait', msg, data), r))
